@@ -27,6 +27,7 @@ inductive Err
   | outside     -- bitiox.Range: "outside buffer"                              bitiox.go:45
   | offset      -- bitio.ErrOffset from a zero reader of negative size          zeroreadatseeker.go:31
   | jqType      -- a gojq type error (index/slice/key of a number, tonumber of an array, …)
+  | synthetic   -- "synthetic value can't be a binary": a decode value not backed by input bits     decode.go:450-452
   | unsup       -- combination outside the modelled alphabet (the driver answers BADOP)
 deriving Repr, DecidableEq, Inhabited
 
@@ -64,6 +65,7 @@ deriving Repr, DecidableEq, Inhabited
 inductive Val
   | bin (b : Bin)
   | dv (b : Bin)                 -- a decode value: only its ToBinary() is modelled (decode.go:449)
+  | dvSyn                        -- a SYNTHETIC decode value (scalar.FlagSynthetic): ToBinary() is an error
   | num (n : Int) (rep : NumRep)
   | str (bs : List UInt8)        -- a Go string: raw bytes, not necessarily valid UTF-8
   | arr (vs : List Val)
@@ -123,6 +125,7 @@ mutual
 def toBR (inArray : Bool) : Val → Outcome Bits
   | .bin b => rangeBits b.src b.start b.len                   -- :57-62 (pad ignored)
   | .dv b => rangeBits b.src b.start b.len
+  | .dvSyn => .error .synthetic                               -- :57-61 ToBinary() fails
   | .str s => .ok (bytesToBits s)
   | .num n _ => if inArray then byteBits n else numBits n      -- toBigInt: both types
   | .arr vs =>
@@ -150,6 +153,7 @@ def newBin (bits : Bits) (unit : Nat) : Bin := { src := bits, start := 0, len :=
 def toBinary : Val → Outcome Bin
   | .bin b => .ok b
   | .dv b => .ok b
+  | .dvSyn => .error .synthetic
   | v => do let bits ← toBR false v; pure (newBin bits 8)
 
 /-- Binary.toReader (binary.go:488-497), `pad` as the signed value computed by `_toBits` -/
@@ -263,6 +267,7 @@ inductive E
   | obj
   | arr (es : List E)
   | dv (src : Bits) (start len : Nat)
+  | dvSyn
   | toBits (unit : Nat) (keepRange : Bool) (padToUnits : Int) (e : E)
   | index (i : Int) (e : E)
   | slice (s t : Option Int) (e : E)
@@ -293,6 +298,7 @@ def eval : E → Outcome Val
     | .ok vs => .ok (.arr vs)
     | .error e => .error e
   | .dv src start len => .ok (.dv { src := src, start := start, len := len, unit := 8, pad := 0 })
+  | .dvSyn => .ok .dvSyn
   | .toBits u k p e =>
     match eval e with
     | .ok v => toBitsOp u k p v
@@ -354,6 +360,7 @@ mutual
 def Val.AllWF : Val → Prop
   | .bin b => b.WF
   | .dv b => b.WF
+  | .dvSyn => True
   | .arr vs => Val.AllWFList vs
   | .num _ _ => True
   | .str _ => True
@@ -380,6 +387,7 @@ def E.DvWF : E → Prop
   | .toHex e => E.DvWF e
   | .sub _ e => E.DvWF e
   | .half _ => True
+  | .dvSyn => True
   | .str _ => True
   | .int _ => True
   | .null => True
@@ -402,6 +410,7 @@ def showErr : Err → String
   | .outside => "err:outside"
   | .offset => "err:offset"
   | .jqType => "err:type"
+  | .synthetic => "err:synthetic"
   | .unsup => "err:UNSUP"
 
 mutual
@@ -411,6 +420,7 @@ def showVal : Val → String
     | .ok bits => s!"b:{b.unit}:{b.start}:{b.len}:{hexOfBits bits}"
     | .error e => showErr e
   | .dv _ => "err:UNSUP"
+  | .dvSyn => "err:UNSUP"
   | .num _ .flt => "err:UNSUP"                               -- a float is never observed on its own
   | .num n _ => s!"n:{n}"
   | .str s => "s:" ++ (if s.isEmpty then "-" else hexOfBytes s)
